@@ -66,8 +66,18 @@ type colSpec struct {
 	typ  string
 }
 
-func literal(s *sim.Src) string {
-	switch s.Draw(12, "lit") {
+func literal(s *sim.Src, exotic bool) string {
+	k := s.Draw(15, "lit")
+	if !exotic && (k == 5 || k == 10 || k == 13) && !s.Chance(1, 6, "floatdefault") {
+		k = 1
+	}
+	switch k {
+	case 12:
+		return "TRUE"
+	case 13:
+		return "3.0"
+	case 14:
+		return "'1e3'"
 	case 0:
 		return "0"
 	case 1:
@@ -104,6 +114,9 @@ func CreateTable(s *sim.Src, name string, fancy int, wantWithoutRowid bool, othe
 	if fancy >= 8 && s.Chance(1, 12, "manycols") {
 		ncols = 66 + s.Draw(10, "ncols66") // record header > 127 bytes
 	}
+	// exotic tables use constructs sqlittle's grammar is known to lack (they must be
+	// rejected, never misread); the others stay inside what it claims to support
+	exotic := fancy > 0 && s.Chance(fancy, 30, "exotic")
 	used := map[string]bool{}
 	var cols []colSpec
 	for i := 0; i < ncols; i++ {
@@ -119,7 +132,11 @@ func CreateTable(s *sim.Src, name string, fancy int, wantWithoutRowid bool, othe
 			n = fmt.Sprintf("%s%d", n, i)
 		}
 		used[strings.ToLower(n)] = true
-		t := typeNames[s.Weighted([]int{8, 8, 3, 3, 3, 3, 2, 2, 1, 1, 1, 1, 1, 1, 1, 1, 1, 1, 1, 1}, "type")]
+		tw := []int{8, 8, 3, 3, 3, 3, 2, 2, 1, 1, 1, 1, 1, 1, 1, 1, 1, 1, 0, 0}
+		if exotic {
+			tw[18], tw[19] = 3, 3
+		}
+		t := typeNames[s.Weighted(tw, "type")]
 		cols = append(cols, colSpec{n, t})
 	}
 	// primary key plan: 0 none, 1 column constraint, 2 table constraint
@@ -151,7 +168,7 @@ func CreateTable(s *sim.Src, name string, fancy int, wantWithoutRowid bool, othe
 			if !wantWithoutRowid && strings.EqualFold(c.typ, "INTEGER") && !strings.Contains(pk, "DESC") && s.Chance(1, 5, "autoinc") {
 				pk += " AUTOINCREMENT"
 			}
-			if fancy > 0 && s.Chance(1, 8, "pkconfl") {
+			if exotic && s.Chance(1, 3, "pkconfl") {
 				pk += " ON CONFLICT REPLACE"
 			}
 			cons = append(cons, pk)
@@ -168,17 +185,21 @@ func CreateTable(s *sim.Src, name string, fancy int, wantWithoutRowid bool, othe
 			cons = append(cons, "COLLATE "+collations[s.Draw(len(collations), "coll")])
 		}
 		if s.Chance(1, 5, "default") {
-			cons = append(cons, "DEFAULT "+literal(s))
+			cons = append(cons, "DEFAULT "+literal(s, exotic))
 		}
-		if fancy > 0 && s.Chance(fancy, 60, "check") {
+		if exotic && s.Chance(1, 3, "check") {
 			cons = append(cons, fmt.Sprintf("CHECK (%s > -99999999 OR %s IS NULL)", Quote(c.name), Quote(c.name)))
 		} else if fancy > 0 && s.Chance(fancy, 60, "check2") {
 			cons = append(cons, fmt.Sprintf("CHECK (%s != 123456)", Quote(c.name)))
 		}
 		if fancy > 0 && len(others) > 0 && s.Chance(fancy, 60, "refs") {
-			cons = append(cons, "REFERENCES "+Quote(others[s.Draw(len(others), "reft")])+" ON DELETE CASCADE")
+			if exotic {
+				cons = append(cons, "REFERENCES "+Quote(others[s.Draw(len(others), "reft")])+" ON DELETE CASCADE")
+			} else {
+				cons = append(cons, "REFERENCES "+Quote(others[s.Draw(len(others), "reft")])+"(x) ON DELETE CASCADE ON UPDATE SET NULL")
+			}
 		}
-		if fancy > 0 && len(cons) > 0 && s.Chance(fancy, 40, "constrname") {
+		if exotic && len(cons) > 0 && s.Chance(1, 3, "constrname") {
 			k := s.Draw(len(cons), "cnamepos")
 			cons[k] = "CONSTRAINT cn" + fmt.Sprint(i) + " " + cons[k]
 		}
@@ -238,14 +259,18 @@ func CreateTable(s *sim.Src, name string, fancy int, wantWithoutRowid bool, othe
 	for i := 0; i < nuniq; i++ {
 		u := "UNIQUE (" + indexedCols(3) + ")"
 		if fancy > 0 && s.Chance(1, 6, "uconfl") {
-			u += " ON CONFLICT " + []string{"ROLLBACK", "ABORT", "FAIL", "IGNORE", "REPLACE"}[s.Draw(5, "confl")]
+			if exotic {
+				u += " ON CONFLICT " + []string{"ROLLBACK", "ABORT", "FAIL", "IGNORE", "REPLACE"}[s.Draw(5, "confl")]
+			} else {
+				u += " ON CONFLICT REPLACE"
+			}
 		}
 		tcons = append(tcons, u)
 	}
 	if fancy > 0 && len(others) > 0 && s.Chance(fancy, 50, "tfk") {
-		tcons = append(tcons, "FOREIGN KEY ("+Ident(s, cols[0].name, fancy)+") REFERENCES "+Quote(others[0])+" DEFERRABLE INITIALLY DEFERRED")
+		tcons = append(tcons, "FOREIGN KEY ("+Ident(s, cols[0].name, fancy)+") REFERENCES "+Quote(others[0])+"(x) DEFERRABLE INITIALLY DEFERRED")
 	}
-	if fancy > 0 && s.Chance(fancy, 60, "tcheck") {
+	if exotic && s.Chance(1, 3, "tcheck") {
 		tcons = append(tcons, "CHECK (1)")
 	}
 	for k := len(tcons) - 1; k > 0; k-- {
